@@ -1185,8 +1185,10 @@ class TestGraph(object):
                 )
                 # provide dynamic fingerprint to an original object root node
                 if re.search(r"(\.|^)original(\.|$)", new_node.params["name"]):
+                    # a directly selected (leaf) object root still creates an image and not the net
+                    root_images = [o for o in new_node.objects if o.key == "images"]
                     new_node.params["object_root"] = test_node.params.get(
-                        "dep_id", net.id
+                        "dep_id", root_images[0].id if root_images else net.id
                     )
             except param.EmptyCartesianProduct:
                 # empty product in cases like parent (dependency) nodes imply wrong configuration
